@@ -20,6 +20,7 @@ import (
 	"strconv"
 	"strings"
 	"testing"
+	"time"
 
 	"github.com/robustirc/robustirc/internal/outputstream/schedsync"
 	"github.com/robustirc/robustirc/internal/robust"
@@ -117,7 +118,9 @@ loop:
 		for _, r := range readers {
 			r.cancel()
 		}
-		o.InterruptGetNext()
+		if !verifOutGuard(2*time.Second, func() { o.InterruptGetNext() }) {
+			return strings.Join(out, " ")
+		}
 	cleanup:
 		for _, t := range order {
 			for i := 0; i < 8 && ctl.Enabled(t); i++ {
